@@ -604,10 +604,12 @@ func (c *Ctx) opsxRun() []*opsVerdict {
 						continue
 					}
 					if t1 == "Integer" || t1 == "Long" {
-						// two's complement: 0 - x is -x
+						// two's complement: 0 - x is -x; int and int64 are one representation: a conversion between
+						// them around the operands or around the whole-number result changes nothing
 						for i := range values {
-							values[i].expr = strings.ReplaceAll(values[i].expr, "(0 - x)", "-x")
+							values[i].expr = normIntIdentity(strings.ReplaceAll(values[i].expr, "(0 - x)", "-x"))
 						}
+						want = normIntIdentity(want)
 					}
 					// a comparison cell may be computed in any logically equal way (b < a for a > b, less || equal,
 					// a relation object …): decided as a truth table over the possible orderings of x and c2
@@ -939,6 +941,109 @@ func (c *Ctx) opsxRun() []*opsVerdict {
 			}
 		}()
 	}
+	// the result of an operator is a value of its own: what a caller does with a returned variant (it may keep it
+	// as an accumulator and set it) never shows in a later result. Every operator × every pair of operand types,
+	// Null included: call, store something else in the result through the exported setters, call again on fresh
+	// equal operands - the second answer is the first one's original value.
+	for _, manager := range managers {
+		manager := manager
+		wg.Add(1)
+		go func() {
+			defer wg.Done()
+			h := c.newVxHarness(manager)
+			v := &opsVerdict{key: fmt.Sprintf("variants.%s#results-are-fresh", manager), pos: c.Pos(c.MustFunc(pkgVariants, "", "New"+manager).Pos())}
+			defer func() {
+				if r := recover(); r != nil {
+					a, ok := r.(mAbort)
+					if !ok {
+						panic(r)
+					}
+					v.undec = a.why
+				}
+				mu.Lock()
+				all = append(all, v)
+				mu.Unlock()
+			}()
+			if h.fault != "" {
+				v.undec = h.fault
+				return
+			}
+			payloads := map[string]interface{}{"Null": nil, "Integer": int64(6), "Long": int64(3), "Boolean": true, "Float": float64(1.5), "Double": float64(2.5),
+				"String": lit("7"), "DateTime": "t0", "TimeSpan": int64(1500), "Object": "o", "Array": "a"}
+			types11 := append([]string{"Null"}, valueTypes...)
+			show := func(t string) string {
+				switch p := payloads[t].(type) {
+				case nil:
+					return t
+				case lit:
+					return fmt.Sprintf("%s %q", t, string(p))
+				default:
+					return fmt.Sprintf("%s %v", t, p)
+				}
+			}
+			render := func(r mv, out mOutcome) (string, mv) {
+				tp, ok := r.(mTuple)
+				if out.kind != "ok" || !ok || len(tp) != 2 {
+					return "", nil
+				}
+				if _, isNil := tp[1].(mNilT); !isNil {
+					return "error " + errorCode(tp[1]), nil
+				}
+				if _, isNil := tp[0].(mNilT); isNil {
+					return "", nil
+				}
+				tag := h.typeOf(tp[0])
+				if tag == "Null" {
+					return "Null", tp[0]
+				}
+				return tag + " " + h.payloadOf(tp[0]), tp[0]
+			}
+			vt := resultType(c.MustFunc(pkgVariants, "", "EmptyVariant"))
+			for _, op := range methods {
+				fn := c.lookupMethod(h.mgrT, op)
+				if fn == nil {
+					continue
+				}
+				unary := fn.Signature.Params().Len() == 1
+				for _, t1 := range types11 {
+					for _, t2 := range types11 {
+						if unary && t2 != "Null" {
+							continue
+						}
+						call := func() (mv, mOutcome) {
+							h.m.steps = 0
+							if unary {
+								return h.m.Call(fn, h.mgr, h.variant(t1, payloads[t1]))
+							}
+							return h.m.Call(fn, h.mgr, h.variant(t1, payloads[t1]), h.variant(t2, payloads[t2]))
+						}
+						where := fmt.Sprintf("%s.%s(%s, %s)", manager, op, show(t1), show(t2))
+						if unary {
+							where = fmt.Sprintf("%s.%s(%s)", manager, op, show(t1))
+						}
+						first, res := render(call())
+						if first == "" || res == nil {
+							continue // a panic or a run outside the model is judged cell by cell above; an error has no result to keep
+						}
+						v.runs++
+						// the caller reuses the returned variant for something of another type
+						setter, stored := "SetAsInteger", "Integer 42"
+						var arg mv = int64(42)
+						if strings.HasPrefix(first, "Integer") {
+							setter, stored, arg = "SetAsString", `String "kept"`, "kept"
+						}
+						if _, out := callM(c, h.m, vt, setter, res, arg); out.kind != "ok" {
+							continue
+						}
+						second, _ := render(call())
+						if second != first && second != "" && v.bad == "" {
+							v.bad = fmt.Sprintf("%s returns %s; after the caller stored %s in that returned variant (%s), the same call on fresh equal operands returns %s: the operator hands out a variant it shares with later calls instead of a new one, so a result depends on what callers did with earlier results and not on the operands only", where, first, stored, setter, second)
+						}
+					}
+				}
+			}
+		}()
+	}
 	wg.Wait()
 	sort.Slice(all, func(i, j int) bool { return all[i].key < all[j].key })
 	opsxMemo = all
@@ -947,7 +1052,7 @@ func (c *Ctx) opsxRun() []*opsVerdict {
 
 func init() {
 	register(&Rule{ID: "OPS.model", Floor: 44,
-		Doc: "every operator of both managers evaluated abstractly on variants with symbolic payloads: per first-operand type the result tag and host expression over (x, converted y) equal the statement's matrix, the second operand goes through Convert to the first operand's type, value-dependent branches are explored both ways (zero / range guards become error outcomes, boolean cells truth tables), undefined cells end in errors, Null operands follow the Null policy",
+		Doc: "every operator of both managers evaluated abstractly on variants with symbolic payloads: per first-operand type the result tag and host expression over (x, converted y) equal the statement's matrix, the second operand goes through Convert to the first operand's type, value-dependent branches are explored both ways (zero / range guards become error outcomes, boolean cells truth tables), undefined cells end in errors, Null operands follow the Null policy; the result of every operator for every pair of operand types (Null included) is a variant of its own - storing something else in a returned result never shows in the answer to the same call on fresh operands",
 		Run: func(c *Ctx) []*Obligation {
 			o := newObl("OPS.model")
 			for _, v := range c.opsxRun() {
